@@ -14,7 +14,7 @@ use chia_consensus::consensus_constants::{ConsensusConstants, TEST_CONSTANTS};
 use chia_consensus::flags::{ConsensusFlags, MEMPOOL_MODE};
 use chia_consensus::make_aggsig_final_message::make_aggsig_final_message;
 use chia_consensus::owned_conditions::OwnedSpendConditions;
-use chia_consensus::run_block_generator::run_block_generator2;
+use chia_consensus::run_block_generator::{run_block_generator, run_block_generator2};
 use chia_consensus::spendbundle_validation::validate_clvm_and_signature;
 use chia_protocol::{Bytes32, Coin, CoinSpend, Program, SpendBundle};
 use clvmr::allocator::{Allocator, NodePtr};
@@ -79,6 +79,8 @@ pub enum Party {
     ParseSpends { bundle: u8 },
     /// block validation from a generator
     RunGenerator { bundle: u8 },
+    /// block validation from a generator through the legacy (ROM) path
+    RunGeneratorLegacy { bundle: u8 },
     /// mempool pre-validation; on success the returned pairings are fed into the cache
     PreValidate { bundle: u8, feed: bool },
     Evict { bundle: u8 },
@@ -498,6 +500,12 @@ fn path_generator(b: &Built, cache: Option<&BlsCache>, k: &ConsensusConstants, f
         .map_err(|e| format!("{:?}", e.error_code()))
 }
 
+fn path_generator_legacy(b: &Built, cache: Option<&BlsCache>, k: &ConsensusConstants, flags: ConsensusFlags) -> Result<(), String> {
+    run_block_generator::<&[u8], _>(&b.generator, [], MAX_COST, flags, &b.signature, cache, k)
+        .map(|_| ())
+        .map_err(|e| format!("{:?}", e.error_code()))
+}
+
 #[derive(Clone, Debug)]
 enum PartyResult {
     Verdict(Result<(), String>),
@@ -522,6 +530,10 @@ fn run_party(
         Party::RunGenerator { bundle } => {
             let b = &built[*bundle as usize % built.len()];
             PartyResult::Verdict(path_generator(b, Some(cache), k, flags))
+        }
+        Party::RunGeneratorLegacy { bundle } => {
+            let b = &built[*bundle as usize % built.len()];
+            PartyResult::Verdict(path_generator_legacy(b, Some(cache), k, flags))
         }
         Party::PreValidate { bundle, feed } => {
             let i = *bundle as usize % built.len();
@@ -579,7 +591,11 @@ fn run_party(
 
 fn party_bundle(p: &Party) -> usize {
     match p {
-        Party::ParseSpends { bundle } | Party::RunGenerator { bundle } | Party::PreValidate { bundle, .. } | Party::Evict { bundle } => *bundle as usize,
+        Party::ParseSpends { bundle }
+        | Party::RunGenerator { bundle }
+        | Party::RunGeneratorLegacy { bundle }
+        | Party::PreValidate { bundle, .. }
+        | Party::Evict { bundle } => *bundle as usize,
     }
 }
 
@@ -587,6 +603,7 @@ fn party_name(p: &Party) -> &'static str {
     match p {
         Party::ParseSpends { .. } => "parse_spends",
         Party::RunGenerator { .. } => "run_block_generator2",
+        Party::RunGeneratorLegacy { .. } => "run_block_generator",
         Party::PreValidate { .. } => "validate_clvm_and_signature",
         Party::Evict { .. } => "evict",
     }
@@ -692,7 +709,8 @@ impl C05 {
         // ---- the cache-free verdicts (outside the concurrent phase) ----
         if case.no_cache_paths {
             for (i, b) in built.iter().enumerate() {
-                let checks: [(&str, Result<(), String>); 3] = [
+                let checks: [(&str, Result<(), String>); 4] = [
+                    ("run_block_generator", std::panic::catch_unwind(std::panic::AssertUnwindSafe(|| path_generator_legacy(b, None, &k, flags))).unwrap_or(Err("panic".into()))),
                     ("parse_spends", std::panic::catch_unwind(std::panic::AssertUnwindSafe(|| path_parse_spends(b, None, &k, flags))).unwrap_or(Err("panic".into()))),
                     ("run_block_generator2", std::panic::catch_unwind(std::panic::AssertUnwindSafe(|| path_generator(b, None, &k, flags))).unwrap_or(Err("panic".into()))),
                     (
@@ -968,7 +986,8 @@ fn gen_party(rng: &mut Rng, nbundles: usize) -> Party {
     let bundle = rng.usize_below(nbundles) as u8;
     match rng.below(10) {
         0..=2 => Party::ParseSpends { bundle },
-        3..=5 => Party::RunGenerator { bundle },
+        3 | 4 => Party::RunGenerator { bundle },
+        5 => Party::RunGeneratorLegacy { bundle },
         6..=8 => Party::PreValidate { bundle, feed: rng.chance(4, 5) },
         _ => Party::Evict { bundle },
     }
@@ -995,7 +1014,7 @@ impl Engine for C05 {
             rule: "1-2 bundles of 1-3 spends (puzzle `1`) carrying 0-3 AGG_SIG conditions over the 8 opcodes, amounts from every encoding-length class, per-run random domain constants; a wallet signs with the real make_aggsig_final_message, a channel applies at most one tampering per bundle, and 2-3 parties (parse_spends and run_block_generator2 with the shared cache, validate_clvm_and_signature feeding its pairings back into the cache, an evictor) run as simulated threads on one real BlsCache of capacity 1-64 after a seeded warm-up, under a seeded scheduler that decides every interleaving at lock granularity. A run is non-trivial if at least two parties took the cache lock; distinct = distinct (schedule, tamper kinds, opcode multisets) among those",
             components_real: vec![
                 "chia_consensus::conditions::parse_spends (message construction, check_agg_sig_unsafe_message, to_key, validate_signature)",
-                "chia_consensus::run_block_generator::run_block_generator2",
+                "chia_consensus::run_block_generator::{run_block_generator2, run_block_generator}",
                 "chia_consensus::spendbundle_validation::validate_clvm_and_signature (run_spendbundle underneath)",
                 "chia_consensus::make_aggsig_final_message::make_aggsig_final_message",
                 "chia_bls::BlsCache (hooked Mutex), aggregate_verify_gt, sign, aggregate (blst)",
